@@ -54,13 +54,29 @@ func verifRefEntry(declared map[string]bool, status int) string {
 	return ""
 }
 
-//verif:harness id=C08 tier=quick,thorough witness=end bounds="status selection: every subset of {200,404,2XX,4XX,default} declared, each entry demanding its own required header; every status in 0..999 (symbolic); strict-status option symbolic; methods GET/HEAD; the entry used is identified by the header the error names"
-func verifH_C08_status() {
+//verif:harness id=C08 tier=quick witness=end bounds="status selection: every subset of {200,404,2XX,4XX,default} declared, each entry demanding its own required header; every status in 0..999 (symbolic); strict-status option symbolic; methods GET/HEAD; the entry used is identified by the header it demands"
+func verifH_C08_status() { verifC08Status(32, false) }
+
+//verif:harness id=C08 tier=quick witness=end bounds="status classes: one class pattern cXX for each c in 1..5, with or without default; every status in 0..999 (symbolic); strict option symbolic"
+func verifH_C08_classes() { verifC08Status(4, true) }
+
+//verif:harness id=C08 tier=thorough witness=end bounds="status selection: every subset of {200,404,one of 1XX/2XX/3XX,one of 4XX/5XX,default}; every status in 0..999 (symbolic); strict option symbolic; GET/HEAD"
+func verifH_C08_status_all() { verifC08Status(32, true) }
+
+func verifC08Status(nsub int, anyClass bool) {
 	declared := map[string]bool{}
 	resps := openapi3.NewResponsesWithCapacity(5)
-	sub := verifChoose("declared", 32)
+	sub := verifChoose("declared", nsub)
 	str := &openapi3.SchemaRef{Value: &openapi3.Schema{Type: &openapi3.Types{"string"}}}
-	for i, k := range verifRespKeys {
+	keys := verifRespKeys
+	switch {
+	case anyClass && nsub == 32:
+		// the two class patterns are any of 1XX..3XX and 4XX..5XX
+		keys = []string{"200", "404", []string{"1XX", "2XX", "3XX"}[verifChoose("classA", 3)], []string{"4XX", "5XX"}[verifChoose("classB", 2)], "default"}
+	case anyClass:
+		keys = []string{[]string{"1XX", "2XX", "3XX", "4XX", "5XX"}[verifChoose("class", 5)], "default"}
+	}
+	for i, k := range keys {
 		if sub&(1<<i) != 0 {
 			declared[k] = true
 			d := "d"
@@ -202,5 +218,29 @@ func verifH_C08_writeonly() {
 		ok = false
 	}
 	verifAssert((err == nil) == ok, "C08 write-only: a response must not carry write-only properties (unless excluded) and need not contain required write-only ones")
+	verifReach("end")
+}
+
+//verif:harness id=C08 tier=quick,thorough witness=end bounds="a response body that cannot be decoded (declared content type whose injected decoder reads the body and fails): the response is rejected and the body, any 0-2 bytes, can still be read in full afterwards; option MultiError symbolic"
+func verifH_C08_undecodable() {
+	RegisterBodyDecoder("application/x-verif-fail", func(r io.Reader, _ http.Header, _ *openapi3.SchemaRef, _ EncodingFn) (any, error) {
+		_, _ = io.ReadAll(r)
+		return nil, &ParseError{Kind: KindInvalidFormat, Reason: "undecodable"}
+	})
+	d := "d"
+	resp := &openapi3.Response{Description: &d, Content: openapi3.Content{"application/x-verif-fail": &openapi3.MediaType{Schema: &openapi3.SchemaRef{Value: &openapi3.Schema{Type: &openapi3.Types{"string"}}}}}}
+	resps := openapi3.NewResponsesWithCapacity(1)
+	resps.Set("200", &openapi3.ResponseRef{Value: resp})
+	op := &openapi3.Operation{Responses: resps}
+	body := []byte(verifNondetString("body", 2))
+	hdr := http.Header{"Content-Type": []string{"application/x-verif-fail"}}
+	in := verifRespInput(op, "GET", 200, hdr, body, &Options{MultiError: verifNondetBool("multi")})
+	err := ValidateResponse(context.Background(), in)
+	verifAssert(err != nil, "C08 undecodable: a body that does not decode is rejected")
+	verifAssert(in.Body != nil, "C08 undecodable: the body is still there after validation")
+	if in.Body != nil {
+		rest, rerr := io.ReadAll(in.Body)
+		verifAssert(rerr == nil && bytes.Equal(rest, body), "C08 undecodable: the response body is still readable in full after a failed validation")
+	}
 	verifReach("end")
 }
